@@ -117,6 +117,12 @@ def decide_wf(case, wctx):
     r["counters"]["body_starts"] = len(starts)
     r["counters"]["elements_expected"] = len(want)
     r["obs"] = {"out": out if out is None else out[:8], "error": err, "starts": len(starts)}
+    if not want and err is None and not starts:
+        # no element at depth n anywhere: C04 only demands that no job runs; how the (combined) output of a job-less node
+        # is assembled is C03's subject (open mechanism no-job-output-node-loses-inherited-axes)
+        r["verdict"] = "held"
+        r["nontrivial"] = False
+        return r
     if err is not None or out != want_out or set(starts) != set(want):
         r["verdict"] = "violated"
         r["witness"] = {"why": "downstream jobs are not the depth-n elements of every upstream output, in order"
